@@ -297,53 +297,90 @@ func oneHistory(run *verdict.Run, be *rig.Backend, tg *target, i int) {
 		}
 		opened = append(opened, sid)
 		rec("request", func(s *step) { s.Splits, s.Order, s.Tag = splits, order, tag })
-		resp, ok := c.Peer.WaitResponse(sid, 20*time.Second)
-		hi := c.Len()
-		if !ok || resp.Reset {
-			ev := c.Peer.Events()
-			lastEv := ""
-			if len(ev) > 0 {
-				lastEv = ev[len(ev)-1].String()
+		type pend struct {
+			sid    uint32
+			tag    string
+			lo, q  int
+			stepIx int
+			splits int
+		}
+		batch := []pend{{sid, tag, lo, q, len(steps) - 1, splits}}
+		// a burst: further requests are written before the first one has been answered
+		// (several handlers of one connection compute their fingerprints at the same time)
+		if r.Intn(4) == 0 {
+			for k := 1 + r.Intn(5); k > 0 && q+1 < nreq; k-- {
+				q++
+				sid2 := c.Next
+				c.Next += 2
+				tag2 := fmt.Sprintf("C03-%d-%d-%d", run.Seed, i, q)
+				f2 := h2fp.PseudoOrder(r.Intn(24), "front.example", "/fp", "GET")
+				f2 = append(f2, hpack.HeaderField{Name: strings.ToLower(rig.TagHeader), Value: tag2})
+				var pr2 *h2fp.Prio
+				if r.Intn(2) == 0 {
+					pr2 = &h2fp.Prio{Dep: uint32(r.Intn(int(sid2))), Excl: r.Intn(2) == 0, Weight: uint8(r.Intn(256))}
+					prioCount++
+				}
+				lo2, err := c.Headers(sid2, f2, pr2, 0, true, r)
+				if err != nil {
+					break
+				}
+				opened = append(opened, sid2)
+				rec("request-in-burst", func(s *step) { s.Tag = tag2 })
+				batch = append(batch, pend{sid2, tag2, lo2, q, len(steps) - 1, 0})
+				run.Add("requests_in_bursts", 1)
 			}
-			fail("legal-history-not-served", "request %d (stream %d) got no complete response (reset=%v code=%v, last event %s)", q, sid, resp.Reset, resp.ResetCode, lastEv)
-			return
 		}
-		recs := be.Records(tag)
-		run.Eval(1)
-		if len(recs) != 1 {
-			fail("not-forwarded-once", "request %d reached the backend %d times (status %s)", q, len(recs), resp.Status)
-			return
+		for _, pd := range batch {
+			resp, ok := c.Peer.WaitResponse(pd.sid, 20*time.Second)
+			if !ok || resp.Reset {
+				ev := c.Peer.Events()
+				lastEv := ""
+				if len(ev) > 0 {
+					lastEv = ev[len(ev)-1].String()
+				}
+				fail("legal-history-not-served", "request %d (stream %d) got no complete response (reset=%v code=%v, last event %s)", pd.q, pd.sid, resp.Reset, resp.ResetCode, lastEv)
+				return
+			}
 		}
-		vals := recs[0].Header.Values("X-Http2-Fingerprint")
+		hi := c.Len()
 		h := c.History()
 		all := ref.AkamaiAll(h, tg.max)
-		adm := all[lo : hi+1]
-		steps[len(steps)-1].Got, steps[len(steps)-1].Admissible = vals, dedup(adm)
-		run.Add("requests_judged", 1)
-		run.Add("frames_in_histories_judged", int64(lo))
-		if prioCount > 0 && uint64(prioCount) > tg.max {
-			run.Add("requests_with_more_priority_entries_than_limit", 1)
-		}
-		if prioCount > 0 && uint64(prioCount) == tg.max {
-			run.Add("requests_with_priority_entries_equal_to_limit", 1)
-		}
-		if splits > 0 {
-			run.Add("requests_with_continuation", 1)
-		}
-		okv := false
-		if len(vals) == 1 {
-			for _, a := range adm {
-				if a == vals[0] {
-					okv = true
+		for _, pd := range batch {
+			recs := be.Records(pd.tag)
+			run.Eval(1)
+			if len(recs) != 1 {
+				fail("not-forwarded-once", "request %d reached the backend %d times", pd.q, len(recs))
+				return
+			}
+			vals := recs[0].Header.Values("X-Http2-Fingerprint")
+			adm := all[pd.lo : hi+1]
+			steps[pd.stepIx].Got, steps[pd.stepIx].Admissible = vals, dedup(adm)
+			run.Add("requests_judged", 1)
+			run.Add("frames_in_histories_judged", int64(pd.lo))
+			if prioCount > 0 && uint64(prioCount) > tg.max {
+				run.Add("requests_with_more_priority_entries_than_limit", 1)
+			}
+			if prioCount > 0 && uint64(prioCount) == tg.max {
+				run.Add("requests_with_priority_entries_equal_to_limit", 1)
+			}
+			if pd.splits > 0 {
+				run.Add("requests_with_continuation", 1)
+			}
+			okv := false
+			if len(vals) == 1 {
+				for _, a := range adm {
+					if a == vals[0] {
+						okv = true
+					}
+				}
+				if strings.Count(vals[0], "|") != 3 {
+					fail("not-four-parts", "value %q does not have exactly four |-separated parts", vals[0])
 				}
 			}
-			if strings.Count(vals[0], "|") != 3 {
-				fail("not-four-parts", "value %q does not have exactly four |-separated parts", vals[0])
+			if !okv {
+				fail(classify(vals, adm), "request %d (stream %d, %d priority entries so far): backend saw X-HTTP2-Fingerprint=%q, reference for the client's frame history: %q", pd.q, pd.sid, prioCount, vals, dedup(adm))
+				return
 			}
-		}
-		if !okv {
-			fail(classify(vals, adm), "request %d (stream %d, %d priority entries so far): backend saw X-HTTP2-Fingerprint=%q, reference for the client's frame history: %q", q, sid, prioCount, vals, dedup(adm))
-			return
 		}
 	}
 	run.Distinct(fmt.Sprintf("%s|%v", tg.name, c.History()))
